@@ -48,10 +48,10 @@ Proof.
 Qed.
 
 Lemma rd_step_static : forall tmpl s l, static tmpl -> rd_sh_ok tmpl s -> rd_th_ok tmpl s l ->
-  rd_sh_ok tmpl (fst (rd_step tmpl s l)) /\ rd_th_ok tmpl (fst (rd_step tmpl s l)) (snd (rd_step tmpl s l))
-  /\ (rd_ptr s <> None -> rd_ptr (fst (rd_step tmpl s l)) <> None).
+  rd_sh_ok tmpl (fst (rd_step_unrepaired tmpl s l)) /\ rd_th_ok tmpl (fst (rd_step_unrepaired tmpl s l)) (snd (rd_step_unrepaired tmpl s l))
+  /\ (rd_ptr s <> None -> rd_ptr (fst (rd_step_unrepaired tmpl s l)) <> None).
 Proof.
-  intros tmpl s l [St1 St2] Hs [T1 T2]. unfold rd_step. destruct (rd_at l) eqn:At.
+  intros tmpl s l [St1 St2] Hs [T1 T2]. unfold rd_step_unrepaired. destruct (rd_at l) eqn:At.
   - (* alloc *) cbn [fst snd]. destruct Hs as [H1 H2]. split; [|split].
     + split; cbn [rd_heap rd_ptr].
       * apply Forall_app. split; [assumption | constructor; [reflexivity|constructor]].
@@ -77,13 +77,13 @@ Proof.
 Qed.
 
 Lemma redirect_static_inv : forall tmpl sched s ts, static tmpl -> rd_sh_ok tmpl s -> Forall (rd_th_ok tmpl s) ts ->
-  rd_sh_ok tmpl (fst (run (rd_step tmpl) sched s ts))
-  /\ Forall (rd_th_ok tmpl (fst (run (rd_step tmpl) sched s ts))) (snd (run (rd_step tmpl) sched s ts)).
+  rd_sh_ok tmpl (fst (run (rd_step_unrepaired tmpl) sched s ts))
+  /\ Forall (rd_th_ok tmpl (fst (run (rd_step_unrepaired tmpl) sched s ts))) (snd (run (rd_step_unrepaired tmpl) sched s ts)).
 Proof.
   intros tmpl sched. induction sched as [|i sched IH]; intros s ts St Hs Ht; cbn [run]; [split; assumption|].
   unfold step1. destruct (nth_error ts i) as [l|] eqn:E; [|apply IH; assumption].
   assert (Hl : rd_th_ok tmpl s l) by (eapply (proj1 (Forall_forall _ _) Ht); eapply nth_error_In; eassumption).
-  pose proof (rd_step_static tmpl s l St Hs Hl) as (S1 & S2 & S3). destruct (rd_step tmpl s l) as [s' l']. cbn [fst snd] in *.
+  pose proof (rd_step_static tmpl s l St Hs Hl) as (S1 & S2 & S3). destruct (rd_step_unrepaired tmpl s l) as [s' l']. cbn [fst snd] in *.
   apply IH; [assumption|assumption|]. apply Forall_upd; [|assumption].
   eapply Forall_impl; [|exact Ht]. intros x [X1 X2]. split; [|assumption]. intros A B. apply S3. now apply X1.
 Qed.
@@ -97,13 +97,13 @@ Theorem redirect_static_every_schedule_l : forall tmpl sched reqs, static tmpl -
                    | None => rd_at l <> DDone
                    | Some r => r = Ok (rd_own tmpl (rd_path l) (rd_host l))
                    end)
-         (snd (run (rd_step tmpl) sched rd_start (map (fun q => rd_init (fst q) (snd q)) reqs))).
+         (snd (run (rd_step_unrepaired tmpl) sched rd_start (map (fun q => rd_init_unrepaired (fst q) (snd q)) reqs))).
 Proof.
   intros tmpl sched reqs St.
   assert (H0 : rd_sh_ok tmpl rd_start) by (split; [constructor | intros a Ha; discriminate]).
-  assert (H1 : Forall (rd_th_ok tmpl rd_start) (map (fun q => rd_init (fst q) (snd q)) reqs)).
+  assert (H1 : Forall (rd_th_ok tmpl rd_start) (map (fun q => rd_init_unrepaired (fst q) (snd q)) reqs)).
   { apply Forall_forall. intros x Hx. apply in_map_iff in Hx. destruct Hx as [q [<- _]].
-    unfold rd_th_ok, rd_init. cbn. split; [intros X; congruence | discriminate]. }
+    unfold rd_th_ok, rd_init_unrepaired. cbn. split; [intros X; congruence | discriminate]. }
   destruct (redirect_static_inv tmpl sched _ _ St H0 H1) as [_ R].
   eapply Forall_impl; [|exact R]. intros l [_ T]. destruct (rd_got l); [|assumption].
   rewrite static_own by assumption. assumption.
@@ -111,8 +111,8 @@ Qed.
 
 Example redirect_static_nonvacuous :
   static [Lit (bs "http://new.example/fixed")] /\
-  rd_results (snd (run (rd_step [Lit (bs "http://new.example/fixed")]) [0; 1; 1; 0; 0; 1; 1; 0; 0; 1] rd_start
-                       [rd_init (bs "/a") (bs "x.example"); rd_init (bs "/b") (bs "y.example")]))
+  rd_results_unrepaired (snd (run (rd_step_unrepaired [Lit (bs "http://new.example/fixed")]) [0; 1; 1; 0; 0; 1; 1; 0; 0; 1] rd_start
+                       [rd_init_unrepaired (bs "/a") (bs "x.example"); rd_init_unrepaired (bs "/b") (bs "y.example")]))
   = [Some (Ok (bs "http://new.example/fixed")); Some (Ok (bs "http://new.example/fixed"))].
 Proof.
   split; [split; intros [A|[]]; discriminate | vm_compute; reflexivity].
